@@ -470,7 +470,7 @@ def run(ctx):
 
     # conformance of the generator: every file is valid Fortran for gfortran
     pairs = [(d, ctx.seed) for d in devlist]
-    chunks = [pairs[i:i + 40] for i in range(0, len(pairs), 40)]
+    chunks = [pairs[i:i + 20] for i in range(0, len(pairs), 20)]
     bad = [b for res in ctx.pmap(gf_chunk, chunks, chunksize=1) for b in res]
     ctx.require(not bad, f'generator emitted {len(bad)} file(s) gfortran rejects, first: {bad[:1]}')
 
